@@ -428,11 +428,15 @@ def run(res, tier, seed, replay):
              "(bit flip, byte set/insert/delete, truncate, slice duplication, decoded lossily to valid UTF-8), every "
              "prefix of 5 documents, 14 deeply nested and 8 very long shapes at depths 10..200000 with bisection of "
              "the smallest aborting depth; (b) byte strings: every .wat and WIT package of the repository, components "
-             "built from dummy modules, core modules, their truncations / bit flips / byte edits, every prefix of 2 "
+             "built from dummy modules, core modules, ~130 SHAPED valid components written as WAT (component types with 0/1/2 "
+             "exports of every kind, with imports only, instance types with 0..2 exports, nested, under plain / interface "
+             "/ versioned names, value-level imports and exports of them), their truncations / bit flips / byte edits, every prefix of 2 "
              "components, random bytes (bare, after a component header, as a section); (c) every test document of the "
              "repository with its packages as shipped / one missing / replaced by another component / corrupted / "
-             "truncated / swapped / replaced by a core module, with a mutated document, generated documents without "
-             "packages, and the scenario corpus corpus/C14 (known-finding witnesses); resolve, then encode, then "
+             "truncated / swapped / replaced by a core module, with a mutated document, ~430 multi-statement documents whose diagnostics must REFER BACK to earlier "
+             "statements (every ordered pairing of the ways a name can be exported or defined -- spread, `as`, inferred, "
+             "type / record / interface / world -- plus duplicate imports, lets, arguments given twice), generated "
+             "documents without packages, and the scenario corpus corpus/C14 (known-finding witnesses); resolve, then encode, then "
              "Package::from_bytes on the encoder's output. Each input runs in a supervised worker process (per-input "
              "timeout, restart on death). non-trivial = distinct text parsed beyond its first token (accepted with a "
              "statement, or rejected at an offset > 0), byte string that passes the component-header test, pairing "
